@@ -496,7 +496,11 @@ class vDDDTypes(TimeBase):
         else: # isinstance(dt, tuple)
             self.params = Parameters({'value': 'PERIOD'})
 
-        tzid = tzid_from_dt(dt) if isinstance(dt, (datetime, time)) else None
+        if isinstance(dt, tuple) and dt and isinstance(dt[0], datetime):
+            # a period lies in the time zone of its start
+            tzid = tzid_from_dt(dt[0])
+        else:
+            tzid = tzid_from_dt(dt) if isinstance(dt, (datetime, time)) else None
         if tzid is not None and tzid != 'UTC':
             self.params.update({'TZID': tzid})
 
